@@ -333,8 +333,14 @@ def repo_root():
     return os.environ.get("ATOMICA_VERIF_REPO", "/repo")
 
 
-def make_case(rng, max_steps=40):
+def make_case(rng, max_steps=40, prefer=()):
+    """prefer: substrings of framework file names; 70% of the draws are then taken from the matching models."""
     i = int(rng.integers(0, len(PAIRS) + len(AUTO)))
+    if prefer and rng.random() < 0.7:
+        names = [x[0] for x in PAIRS] + list(AUTO)
+        match = [k for k, n in enumerate(names) if any(p in n.split("/")[-1] for p in prefer)]
+        if match:
+            i = match[int(rng.integers(0, len(match)))]
     fw, db, pbs = PAIRS[i] if i < len(PAIRS) else (AUTO[i - len(PAIRS)], None, [])  # databook None: made by auto_project
     pb = pbs[int(rng.integers(0, len(pbs)))] if pbs and rng.random() < 0.5 else None
     dt = float(DTS[int(rng.integers(0, len(DTS)))])
